@@ -602,8 +602,11 @@ func c19Strings(alpha []byte, maxLen int, f func(string)) {
 var c19Blanks = []string{"", " ", "\t", "  ", " \t", "\r", "\v", "\f", "\t\t ", " \r\v\f\t ", " ", "\xa0", "\x85", " ", "\x00", "\\"}
 var c19Words = []string{"acl", "http-request", "server", "use-server", "option", "timeout", "k", "kx", "x", "xk", "*",
 	"ACL", "Acl", "aCL", "Http-Request", "acl2", "aacl", "acl-x", "http-request-x", "http", "request", "\"acl\"", "'acl'", "a\\cl",
-	"acl\x00", "#acl", "#", "ac", "l", "é", "ácl"}
-var c19Args = []string{"", " x", " is_x path_beg /x", "\tdeny", " set-header X-K k", "  acl", " k", "\tk\t", " # acl", "\r", " \r"}
+	"acl\x00", "#acl", "#", "ac", "l", "é", "ácl",
+	// haproxy's keyword modifiers are keywords like any other for the deny list (seed C19g looks past them)
+	"no", "default", "No", "default-server", "no-x"}
+var c19Args = []string{"", " x", " is_x path_beg /x", "\tdeny", " set-header X-K k", "  acl", " k", "\tk\t", " # acl", "\r", " \r",
+	" log", " option forwardfor", "\tserver s1 10.0.0.1:80", " no acl"}
 var c19FlagPool = []string{"", "acl", "k", "kx", "*", "acl,http-request", "http-request,acl", "server,use-server", " acl , k ",
 	"acl,,k", ",", ",acl", "acl,", "*,acl", "acl,*", "ACL", "Acl,acl", "k,kx", "kx,k", "x", "option,timeout,acl,k", "\tacl\t",
 	" acl", "http-request set-header", "#", "\"acl\"", "é", "acl,acl"}
